@@ -1,5 +1,5 @@
 """C06 — conditional critical sections wake every waiter whose condition became true."""
-from props.shared import mu_groups, mu_lemmas, mu_condq_groups
+from props.shared import mu_groups, mu_lemmas, mu_condq_groups, mu_scan_groups
 
 ID = "C06"
 LEVEL = "other"
@@ -17,7 +17,11 @@ EXPLANATION = (
     "(4) BOUNDED: after every sequence of queue operations performed through the real nsync_maybe_merge_conditions_, "
     "nsync_remove_from_mu_queue_, nsync_dll_* in the way their call sites do (enqueue last / first, timeout removal, scan pick-up, wake, "
     "re-join, put back), everything skip_past_same_condition would jump over is equivalent to the waiter whose condition was evaluated, no "
-    "record is lost from its queue, rings stay well linked and a record that left the queue is in no group.")
+    "record is lost from its queue, rings stay well linked and a record that left the queue is in no group. (5) BOUNDED, the scan itself: the real "
+    "nsync_mu_unlock_slow_ on the real dll.c with 1..2 (thorough: 3) queued waiters of every kind (writer / reader x no condition / false / true), caller "
+    "holding as writer or as last reader: only waiters without a condition or with a true one are woken; none is dropped; MU_CONDITION stays while "
+    "conditional waiters remain; MU_ALL_FALSE is published only if every waiter left has a false condition; a waiter that could proceed is left asleep only "
+    "if another was woken and MU_DESIG_WAKER records it.")
 LEVEL_TEXT = ("'returns once its condition has been made true' is liveness and is not decided by contracts; the evaluation-under-lock clause and "
               "the hint-bit clauses that make skipping a scan legal are proved (unbounded, all interference), hence level other")
 ASSUMPTIONS = ["conditions are pure functions of state protected by the mutex (client precondition)"]
@@ -27,4 +31,4 @@ PARALLEL = 14
 
 
 def groups(tier):
-    return mu_groups(tags=["C06"], tier=tier) + mu_lemmas(tags=["C06"]) + mu_condq_groups(tags=["C06"], tier=tier)
+    return mu_groups(tags=["C06"], tier=tier) + mu_lemmas(tags=["C06"]) + mu_condq_groups(tags=["C06"], tier=tier) + mu_scan_groups(tags=["C06"], tier=tier)
